@@ -1436,6 +1436,27 @@ def check_required_steps(ck, rule, prog, body, steps):
                         nest = [x for x in prog.bodies.values() if x.id == cb.id or x.id.startswith(cb.id + "::{closure")]
                         if any(pred(ct) for fb in nest for _, ct in fb.calls()):
                             hit = True
+            if not hit:
+                # ... or inside a private helper this call resolves to (one or two levels down: `calculate` -> `pairwise_scores`)
+                tg = prog.bodies.get(t.callee.res) if t.callee.res else None
+                if tg is not None and tg.kind in ("Fn", "AssocFn") and not tg.reachable and not tg.impl_trait and tg.id != body.id:
+                    seen_h = set()
+                    work_h = [(tg, 0)]
+                    while work_h and not hit:
+                        hb, d = work_h.pop()
+                        if hb.id in seen_h:
+                            continue
+                        seen_h.add(hb.id)
+                        for fb in prog.family(hb):
+                            for _, ct in fb.calls():
+                                if pred(ct):
+                                    hit = True
+                                    break
+                                nb = prog.bodies.get(ct.callee.res) if ct.callee.res else None
+                                if d < 1 and nb is not None and nb.kind in ("Fn", "AssocFn") and not nb.reachable and not nb.impl_trait:
+                                    work_h.append((nb, d + 1))
+                            if hit:
+                                break
             if hit:
                 blocks.add(bi)
                 # innermost..outermost loop headers containing the call
@@ -1709,7 +1730,7 @@ def check_iterator_delegations(ck, rule, prog, file_rx, floor=0):
         ok = d["impl_method"] == d["callee_method"]
         ck.ob(rule, "delegate/%s" % d["body"].short, ok, "%s answers with the inner iterator's `%s`%s" % (d["body"].short, d["callee_method"], "" if ok else " (expected `%s`): the wrapper does not implement the protocol method it claims" % d["impl_method"]), where=d["body"].where(d["line"]))
     if floor:
-        ck.floor(rule, "iterator wrappers delegating the protocol", len(ds), floor)
+        ck.floor(rule, "iterator wrappers delegating the protocol", len(ds), floor, soft=True)
     return len(ds)
 
 
@@ -1771,7 +1792,7 @@ def check_getters(ck, rule, prog, file_rx, floor=0):
         b = g["body"]
         ck.ob(rule, "getter/%s" % b.short, g["verdict"], "%s returns %s" % (b.short, ("its field `%s`" % g["field"]) if g["verdict"] else ("the field `%s` (same type) instead of `%s`" % ("/".join(sorted(g["got"])), g["field"]))), where=b.where())
     if floor:
-        ck.floor(rule, "accessors named after a field", n, floor)
+        ck.floor(rule, "accessors named after a field", n, floor, soft=True)
     return n
 
 
@@ -1815,7 +1836,7 @@ def check_ctors(ck, rule, prog, file_rx, floor=0):
         b = g["body"]
         ck.ob(rule, "ctor/%s/%s" % (b.short, g["field"]), g["verdict"], "%s stores %s in the field `%s`" % (b.short, ("its parameter `%s`" % g["want"]) if g["verdict"] else ("the parameter `%s` (same type) instead of `%s`" % ("/".join(g["got"]), g["want"])), g["field"]), where=b.where(g["line"]))
     if floor:
-        ck.floor(rule, "constructor fields named after a parameter", n, floor)
+        ck.floor(rule, "constructor fields named after a parameter", n, floor, soft=True)
     return n
 
 
@@ -2060,7 +2081,7 @@ def check_wrappers(ck, rule, prog, file_rx, floor=0):
             same = len(set(d.values())) == 1
             ck.ob(rule, "wrapper-siblings/%s" % owner.rsplit("::", 1)[-1], same, "%s: %s act on %s" % (owner.rsplit("::", 1)[-1], ", ".join(sorted(d)), "the same inner collection `%s`" % "/".join(next(iter(d.values()))) if same else "DIFFERENT inner collections %s" % {k: "/".join(v) for k, v in sorted(d.items())}))
     if floor:
-        ck.floor(rule, "container wrappers", n, floor)
+        ck.floor(rule, "container wrappers", n, floor, soft=True)
     return n
 
 
@@ -2139,7 +2160,7 @@ def check_identity_impls(ck, rule, prog, file_rx=r".*", floor=0):
             else:
                 ck.ob(rule, "identity/%s/hash" % nm, not extra, "%s hashes `%s`; equality looks at `%s`%s" % (nm, "/".join(sorted(r["hash_fields"])), "/".join(sorted(keys)), "" if not extra else ": values that are equal can hash differently (lookups in hashed collections miss)"), where=r["hash"].where())
     if floor:
-        ck.floor(rule, "hand-written equality impls", n, floor)
+        ck.floor(rule, "hand-written equality impls", n, floor, soft=True)
     return n
 
 
@@ -2231,5 +2252,5 @@ def check_mapping_iterators(ck, rule, prog, file_rx, floor=0):
     for r in sorted(fs, key=lambda r: r["body"].id):
         ck.ob(rule, "one-to-one/%s" % r["body"].id, r["verdict"], "%s %s" % (r["body"].short, r["msg"]), where=r["body"].where(r["line"]))
     if floor:
-        ck.floor(rule, "mapping iterators", len(fs), floor)
+        ck.floor(rule, "mapping iterators", len(fs), floor, soft=True)
     return len(fs)
